@@ -1,6 +1,7 @@
 """Theorems of lean/TLX/Props/C02Capstone3.lean and lean/TLX/Props/C02File2.lean that the C02 check requires:
 one interleaved history (coalesced levels, 1-RTT before the end of the handshake), 0-RTT (conditions, partial result, the
-two loss mechanisms with kernel-checked counterexamples), other QUIC connections in the capture (file level)."""
+loss mechanisms with kernel-checked counterexamples — (B) restated on the code before the pn-store repair, plus its
+positive counterpart on the repaired code), other QUIC connections in the capture (file level)."""
 MODULES = ["TLX.Props.C02Capstone3", "TLX.Props.C02File2"]
 _A = "TLX.Props.C02Capstone3."
 _B = "TLX.Props.C02File2."
@@ -18,9 +19,11 @@ THEOREMS = [_A + n for n in [
     "afterTls_early",                                 # when and with which suite the Early keys are derived
     "zr_turn", "quic_connection_exact_0rtt_partial",  # a 0-RTT packet in a session holding the sender's early keys
     "zero_rtt_dropped_without_key",                   # loss (D): no Early decryptor yet
-    "zero_rtt_rejected_poisons_pn",                   # loss (B): packet-number space poisoned before the AEAD check
+    "legacy_zero_rtt_rejected_poisons_pn",            # loss (B) on the code BEFORE the pn-store repair (Session.Legacy)
+    "zero_rtt_rejected_leaves_session",               # (B) now: the rejected packet leaves the session as it was
     "ExZr.zero_rtt_before_client_hello_counterexample",
-    "ExZr.zero_rtt_first_offered_suite_counterexample",
+    "ExZr.legacy_first_offered_suite_counterexample",   # old code: 0-RTT lost AND the following 1-RTT packet
+    "ExZr.late_survives",                                        # repaired code: only the 0-RTT packet is lost
     "ExZr.zero_rtt_with_key_exported",
 ]] + [_B + n for n in [
     # 1 + 3 at file level
